@@ -48,6 +48,9 @@ enum Tail {
     Truncated,
     SpareZeroWords,
     SpareDirtyWords,
+    /// the contents were produced by whole-vector writers (fill, serial and parallel flip), which must
+    /// leave the unused bits of the last word clear like every other operation
+    WholeVectorWriters,
 }
 
 /// Builds the real bit vector holding `m.bits` with the given tail state.
@@ -72,6 +75,25 @@ fn build(m: &Model, tail: Tail) -> BitVec {
             w.push(0);
             w.push(0);
             unsafe { BitVec::from_raw_parts(w, l) }
+        }
+        Tail::WholeVectorWriters => {
+            // complement of the wanted contents, then par_flip; then fill(true) + flip + the ones again
+            let mut b: BitVec = m.bits.iter().map(|&x| !x).collect();
+            b.par_flip();
+            let mut c = b.clone();
+            c.fill(true);
+            c.flip();
+            for (i, &x) in m.bits.iter().enumerate() {
+                if x {
+                    c.set(i, true);
+                }
+            }
+            assert!(b == c);
+            if m.len() % 2 == 0 {
+                b
+            } else {
+                c
+            }
         }
         Tail::SpareDirtyWords => {
             let b: BitVec = m.bits.iter().copied().collect();
@@ -533,7 +555,7 @@ fn main() {
     let thorough = ctx.thorough();
     // Tail::SpareDirtyWords (garbage supplied through the unsafe from_raw_parts) is outside C01/C02: the
     // property quantifies over stale bits left by pop or truncation only.
-    let tails: &[Tail] = &[Tail::Fresh, Tail::Popped, Tail::Truncated, Tail::SpareZeroWords];
+    let tails: &[Tail] = &[Tail::Fresh, Tail::Popped, Tail::Truncated, Tail::SpareZeroWords, Tail::WholeVectorWriters];
     for (vname, bits) in vectors(thorough) {
         let m = Model::new(bits);
         let pos = positions(m.len());
